@@ -364,12 +364,15 @@ def run_check(prop, tier, seed):
                 with open(os.path.join(VERIF, path), 'w') as f:
                     json.dump(v, f, indent=1, default=str)
                 violations.append((v.get('what', 'bounded'), path, ''))
+        lines.extend(extra.get('known_lines', []))
         total_obl += extra.get('obligations', 0)
         discharged += extra.get('discharged', 0)
         machinery_errors.extend(extra.get('errors', []))
 
     # ---- known findings ------------------------------------------------------------------
     for k in known_here:
+        if not k.get('contract'):
+            continue
         still = True
         if k.get('witness') is not None and k.get('contract') in CONTRACTS and CONTRACTS[k['contract']].native:
             c = CONTRACTS[k['contract']]
@@ -405,7 +408,7 @@ def run_check(prop, tier, seed):
         'violations': len(violations),
     }
     for k, v in extra.items():
-        if k not in ('violations', 'obligations', 'discharged', 'errors'):
+        if k not in ('violations', 'obligations', 'discharged', 'errors', 'known_lines'):
             evidence['coverage'][k] = v
     os.makedirs(os.path.join(VERIF, 'evidence'), exist_ok=True)
     with open(os.path.join(VERIF, 'evidence', prop + '.json'), 'w') as f:
